@@ -531,6 +531,21 @@ def run (ctx):
   upd = [q.enclosing_stmt_node(g3, st) for t, v, st, k in q.stores_in(ut.node) if norm(t) == '_prev[sw][p.port_no]' and v is not None and norm(v) == 'flood']
   snd_ = g3.nodes_with_call(lambda c: call_name(c) == 'send')
   ctx.ob('R-EFFECT', ut, "the remembered bit is updated whenever a port-mod is sent", bool(upd) and bool(snd_) and (g3.dominates(upd[0], snd_[0]) or g3.postdominates(upd[0], snd_[0])), "_prev updated with the send", ut, 'D3')
+  # the bit is remembered before the port-mod goes out: when the send fails, whoever catches the failure forgets what was remembered
+  # (otherwise a bit that never reached the switch counts as pushed and every later update skips that port)
+  for sn_ in snd_:
+    if not (upd and any(g3.dominates(u_, sn_) for u_ in upd)): continue
+    hs_ = g3.handlers_for(sn_)
+    if not hs_:
+      ctx.ob('R-EFFECT', ut, "a failed port-mod is not remembered as sent", False, "the send is not inside a try: a failure leaves the updater with the bit remembered", (smod, sn_.ast), 'D3'); continue
+    h_ = hs_[0]
+    body_ = [x_ for st_ in h_.ast.body for x_ in ast.walk(st_)]
+    forgets = any(isinstance(x_, ast.Call) and call_name(x_) in ('clear', 'pop') and '_prev' in norm(x_.func.value) for x_ in body_) or \
+              any(isinstance(x_, ast.Delete) and any('_prev' in norm(t_) for t_ in x_.targets) for x_ in body_) or \
+              any(isinstance(x_, ast.Raise) for x_ in body_) and len(hs_) > 1 and any(isinstance(y_, ast.Call) and call_name(y_) in ('clear', 'pop') and '_prev' in norm(y_.func.value) for y_ in ast.walk(hs_[1].ast))
+    ctx.ob('R-EFFECT', ut, "a failed port-mod is not remembered as sent", forgets, "the handler that catches a failing send forgets _prev" if forgets else
+           "`%s` catches a failing `%s` and carries on without forgetting `_prev`: the flood bit stored just before the send was never pushed to the switch but is remembered as pushed - every later update skips that port, "
+           "and the NO_FLOOD bits on the switches stop forming a spanning tree" % (h_.text(30), sn_.text(30)), (smod, h_.ast), 'D3')
   if pmn:
     # unreachable for a virtual port (port_no >= OFPP_MAX), whichever way the test is written
     msv = [((lambda e: isinstance(e, ast.Compare) and norm(e.left).endswith('port_no') and 'OFPP_MAX' in norm(e.comparators[0]) and isinstance(e.ops[0], (ast.Lt,))), False),
